@@ -255,9 +255,7 @@ def cli_sub(argv, cwd, guard=False, timeout=300, env_extra=None, hashseed="0", a
             return 0, p.stderr.decode("utf-8", "replace")[-1500:]
         file_size_limit_runs["failed"] += 1
         faults._remove_new(absent)
-        for path, data in snap.items():
-            with open(path, "wb") as fh:
-                fh.write(data)
+        faults._restore(snap)
     p = subprocess.run(cmd, cwd=cwd, env=env, capture_output=True, timeout=timeout)
     return p.returncode, p.stderr.decode("utf-8", "replace")[-1500:]
 
@@ -390,6 +388,9 @@ def _under_faults(key, once, route, p=0.03, cleanup=()):
 
 
 def create_file(src, dst, route="lib", fmt="AUTO"):
+    from .mon import faults
+    if not faults.enabled or route not in ("lib", "cmd", "cli"):
+        return _create_file_once(src, dst, route, fmt)
     try:
         with open(src, "rb") as fh:
             once_only = b"/dev/fd/" in fh.read(1 << 20)
@@ -440,6 +441,9 @@ def parse(data, workdir, route="lib", fmt="json", hierarchy=False):
     with open(src, "wb") as fh:
         fh.write(data)
     try:
+        from .mon import faults
+        if not faults.enabled or route not in ("lib", "cmd", "cli"):
+            return _parse_once(src, dst, workdir, route, fmt, hierarchy)
         return _under_faults(f"parse/{route}/{fmt}/{_content_key(src)}",
                              lambda: _parse_once(src, dst, workdir, route, fmt, hierarchy), route, cleanup=(dst,))
     finally:
